@@ -111,6 +111,12 @@ func ReadFromSRT(i io.Reader) (o *Subtitles, err error) {
 		}
 	}
 
+	// Scanning may have stopped because of a read error or a line that is too long
+	if err = scanner.Err(); err != nil {
+		err = fmt.Errorf("astisub: scanning failed: %w", err)
+		return
+	}
+
 	// Remove trailing empty lines of the last subtitle
 	removeTrailingEmptyLinesSRT(s)
 	return
